@@ -11,8 +11,13 @@ import harness.props as props_pkg
 
 def main():
     rc = 0
+    skip_dirs = []
     for m in pkgutil.iter_modules(props_pkg.__path__):
         mod = importlib.import_module("harness.props." + m.name)
+        if getattr(mod, "DISABLED", None) and getattr(mod, "SETUP_SKIP", False):
+            # unfinished development (not claimed in MANIFEST.json): not part of the setup build
+            skip_dirs.append(mod.COQ_DIR + "/")
+            continue
         if hasattr(mod, "gen_consts"):
             try:
                 for name, text in mod.gen_consts(implrun.REPO).items():
@@ -23,7 +28,8 @@ def main():
                 rc = 1
     with coqrun.Lock():
         coqrun.ensure_makefile()
-    targets = [f[:-2] + ".vo" for f in coqrun.all_v_files()]
+    targets = [f[:-2] + ".vo" for f in coqrun.all_v_files()
+               if not any(f.startswith(d) for d in skip_dirs)]
     ok, log = coqrun.make(targets, timeout=3000, jobs=16)
     print(log[-3000:])
     if not ok:
